@@ -288,6 +288,14 @@ class SolverRun:
             self.params.startPoint = Point(np.array([float(a) + frac * (float(b) - float(a)) for a, b in zip(lo_, up_)], dtype=np.double), [])
         self.full_snap = full_snap
         self.flushed = 0
+        # the box at construction time is what the solver works on: in every fifth plain run the caller overwrites the bounds arrays
+        # of its Problem object right after the Solver was built (re-using the object for the next study)
+        self.lo0 = [float(t) for t in self.rp.lowerBoundOfFloatVariables]
+        self.up0 = [float(t) for t in self.rp.upperBoundOfFloatVariables]
+        scribble = (not refine) and not extra_listeners and params is None and self.tid % 5 == 0
+        if scribble:
+            self.rp.lowerBoundOfFloatVariables = np.array(self.lo0, dtype=np.double)      # this run's own arrays (the inner problem may be shared)
+            self.rp.upperBoundOfFloatVariables = np.array(self.up0, dtype=np.double)
         self.solver = Solver(self.rp, parameters=self.params)
         self.listener = None
         self.cbs = list(cbs) if listener == "rec" else []
@@ -303,8 +311,11 @@ class SolverRun:
         if not extra_first:
             for l in extra_listeners:
                 self.solver.AddListener(l)
-        self.emit({"ev": "init", "n": self.n, "m": int(m), "lo": qv(self.rp.lowerBoundOfFloatVariables),
-                   "up": qv(self.rp.upperBoundOfFloatVariables), "r": q(float(r)), "eps": q(float(eps)),
+        if scribble:
+            self.rp.lowerBoundOfFloatVariables[:] = self.rp.lowerBoundOfFloatVariables * 3.0 + 17.0
+            self.rp.upperBoundOfFloatVariables[:] = self.rp.upperBoundOfFloatVariables * 3.0 + 29.0
+        self.emit({"ev": "init", "n": self.n, "m": int(m), "lo": qv(self.lo0),
+                   "up": qv(self.up0), "r": q(float(r)), "eps": q(float(eps)),
                    "limit": int(limit), "refine": bool(refine), "tag": tag, "cbs": self.cbs, "probing": bool(probing),
                    "lip": q(float(lip)) if lip is not None else "none", "fmin": q(float(fmin)) if fmin is not None else "none",
                    "jfrom": int(judge[0]), "jstride": int(judge[1])})
@@ -379,7 +390,7 @@ class SolverRun:
         try:
             from iOpt.evolvent.evolvent import Evolvent
             if getattr(self, "_inv", None) is None:
-                self._inv = Evolvent(self.rp.lowerBoundOfFloatVariables, self.rp.upperBoundOfFloatVariables, self.n,
+                self._inv = Evolvent(np.array(self.lo0, dtype=np.double), np.array(self.up0, dtype=np.double), self.n,
                                      int(self.params.evolventDensity))
             return q(float(self._inv.GetInverseImage(np.array(y, dtype=np.double))))
         except Exception:       # noqa: BLE001
@@ -438,6 +449,9 @@ class SolverRun:
 
     def localref(self, number=1):
         """public call DoLocalRefinement(number)"""
+        # (the refinement reads the Problem's bounds at call time: a caller who had overwritten them puts them back first)
+        self.rp.lowerBoundOfFloatVariables[:] = self.lo0
+        self.rp.upperBoundOfFloatVariables[:] = self.up0
         self.emit({"ev": "call", "name": "localref", "k": int(number)})
         buf = io.StringIO()
         exc = None
